@@ -11,9 +11,25 @@ package home
 //vx:stub (*gopkg.in/yaml.v3.Encoder).SetIndent vxC14SetIndent
 //vx:stub (*gopkg.in/yaml.v3.Encoder).Encode vxC14Encode
 //vx:stub (*github.com/AdguardTeam/AdGuardHome/internal/home.clientsContainer).forConfig vxC14ForConfig
+//vx:callsites-gap os.WriteFile github.com/AdguardTeam/AdGuardHome/internal/home github.com/AdguardTeam/AdGuardHome/internal/home.writePIDFile,github.com/AdguardTeam/AdGuardHome/internal/home.disableDNSStubListener
+//vx:callsites-gap os.WriteFile github.com/AdguardTeam/AdGuardHome/internal/dhcpd none
+//vx:callsites-gap os.WriteFile github.com/AdguardTeam/AdGuardHome/internal/filtering none
+//vx:callsites-gap os.Create github.com/AdguardTeam/AdGuardHome/internal/home none
+//vx:callsites-gap os.Create github.com/AdguardTeam/AdGuardHome/internal/dhcpd none
+//vx:callsites-gap os.Create github.com/AdguardTeam/AdGuardHome/internal/filtering none
+//vx:callsites-gap github.com/google/renameio/v2/maybe.WriteFile github.com/AdguardTeam/AdGuardHome/internal/home github.com/AdguardTeam/AdGuardHome/internal/home.parseConfig,(*github.com/AdguardTeam/AdGuardHome/internal/home.configuration).write
+//vx:callsites-gap github.com/google/renameio/v2/maybe.WriteFile github.com/AdguardTeam/AdGuardHome/internal/dhcpd github.com/AdguardTeam/AdGuardHome/internal/dhcpd.writeDB
+//vx:note closed world (recomputed from the SSA on every run): in internal/home, internal/dhcpd and internal/filtering the only callers of os.WriteFile are writePIDFile and disableDNSStubListener (neither writes one of the three files), nobody calls os.Create, and the atomic writer maybe.WriteFile is called only from the save paths the entries execute; another site ends the run INCONCLUSIVE (coverage gap), not as a violation
+//vx:entry vxC14ConfigUpgrade reach=crashed,saved,save-failed
+//vx:stub (*github.com/AdguardTeam/AdGuardHome/internal/configmigrate.Migrator).Migrate vxC14Migrate
+//vx:stub gopkg.in/yaml.v3.Unmarshal vxC14Unmarshal
+//vx:note ConfigUpgrade entry: the second writer of AdGuardHome.yaml, the rewrite after a schema upgrade at start-up (real parseConfig up to and including its write; the migrator returns arbitrary new bytes, an arbitrary `upgraded` flag or an error; parseConfig is cut at yaml.Unmarshal, which follows the write), over the same file-system model with crash / fault at every step
 
 import (
+	"errors"
 	"io"
+
+	"github.com/AdguardTeam/AdGuardHome/internal/configmigrate"
 
 	"github.com/AdguardTeam/AdGuardHome/internal/aghrenameio"
 	"github.com/AdguardTeam/AdGuardHome/internal/vx"
@@ -62,4 +78,49 @@ func vxC14Config() {
 		err = config.write(nil)
 	}()
 	aghrenameio.VxC14Finish(err, "configuration file", true)
+}
+
+var errVxC14Stop = errors.New("vx: parseConfig cut after the upgrade write")
+
+var vxC14Upgraded bool
+
+// vxC14Migrate: the migrator returns an arbitrary document, says whether it
+// differs from the input, or fails.
+func vxC14Migrate(m *configmigrate.Migrator, body []byte, target uint) ([]byte, bool, error) {
+	if vx.Bool("migrateFails") {
+		return body, false, errors.New("vx: migration failed")
+	}
+	vxC14Upgraded = vx.Bool("upgraded")
+	if !vxC14Upgraded {
+		return body, false, nil
+	}
+	return vxC14NewContent, true, nil
+}
+
+func vxC14Unmarshal(in []byte, out any) error { return errVxC14Stop }
+
+func vxC14ConfigUpgrade() {
+	const dest = "/w/AdGuardHome.yaml"
+	globalContext.confFilePath = dest
+	old := vx.Bytes("old", 1+vx.Choice("oldLen", 3))
+	vxC14NewContent = vx.Bytes("new", vx.Choice("newLen", 4))
+	vxC14Upgraded = false
+	aghrenameio.VxC14Init(dest, old, true, func() [][]byte { return [][]byte{vxC14NewContent} })
+	config.fileData = old
+	var err error
+	func() {
+		defer func() {
+			if r := recover(); r != nil {
+				if _, ok := r.(aghrenameio.VxC14Crash); !ok {
+					panic(r)
+				}
+				vx.Assume(false)
+			}
+		}()
+		err = parseConfig()
+	}()
+	if errors.Is(err, errVxC14Stop) {
+		err = nil
+	}
+	aghrenameio.VxC14Finish(err, "configuration file (schema upgrade)", vxC14Upgraded)
 }
